@@ -575,6 +575,44 @@ type caseOut struct {
 	// the analysed package does not contain, although the package refers to that type through
 	// an alias declared in a third package (known finding alias-cross-package).
 	AliasHidden []string `json:"alias_hidden"`
+	// Only when Could is false and AliasHidden is non-empty: would CouldMatchAny accept the
+	// package if the index resolved the hidden symbols (CouldIfVisible), and what code.Matches
+	// yields when the symbol-index rejection is switched off (SymbolsPattern = Any), i.e. what the
+	// other two filters let through (FilteredNoIdx).  The pair is attributed to the known
+	// finding only if CouldIfVisible holds and FilteredNoIdx equals Brute.
+	CouldIfVisible bool     `json:"could_if_visible"`
+	FilteredNoIdx  []string `json:"filtered_noidx"`
+}
+
+// evalSymbols evaluates a SymbolsPattern formula like code.CouldMatchAny does, asking the
+// real index for every symbol (through CouldMatchAny on a one-symbol formula) except the
+// hidden ones, which count as resolved.
+func (l *loaded) evalSymbols(n pattern.Node, hidden map[string]bool) bool {
+	switch v := n.(type) {
+	case pattern.Any:
+		return true
+	case pattern.Or:
+		for _, c := range v.Nodes {
+			if l.evalSymbols(c, hidden) {
+				return true
+			}
+		}
+		return false
+	case pattern.And:
+		for _, c := range v.Nodes {
+			if !l.evalSymbols(c, hidden) {
+				return false
+			}
+		}
+		return true
+	case pattern.IndexSymbol:
+		if v.Type == "" && hidden[v.Path+"."+v.Ident] {
+			return true
+		}
+		return code.CouldMatchAny(l.pass, pattern.Pattern{SymbolsPattern: v})
+	default:
+		return false
+	}
 }
 
 func uniqSorted(xs []string) []string {
@@ -639,6 +677,32 @@ func (l *loaded) runCase(pi int, q pattern.Pattern, universe map[string]bool) ca
 	}
 	co.Filtered = uniqSorted(co.Filtered)
 	co.Brute = uniqSorted(co.Brute)
+	if !co.Could && len(co.AliasHidden) > 0 && co.FPanic == "" {
+		hidden := map[string]bool{}
+		for _, s := range co.AliasHidden {
+			hidden[s] = true
+		}
+		func() {
+			defer func() {
+				if r := recover(); r != nil {
+					co.FPanic = fmt.Sprint(r)
+				}
+			}()
+			co.CouldIfVisible = l.evalSymbols(q.SymbolsPattern, hidden)
+			q2 := q
+			q2.SymbolsPattern = pattern.Any{}
+			co.FilteredNoIdx = []string{}
+			for n, m := range code.Matches(l.pass, q2) {
+				st := l.canonState(m.State)
+				nn := l.normalise(q, n, st)
+				if !universe[kindOf(nn)] {
+					continue
+				}
+				co.FilteredNoIdx = append(co.FilteredNoIdx, l.nodeID(nn)+" | "+st)
+			}
+			co.FilteredNoIdx = uniqSorted(co.FilteredNoIdx)
+		}()
+	}
 	return co
 }
 
@@ -667,8 +731,10 @@ func main() {
 
 	tables := probeTables()
 	// universe of syntax-node kinds: the go/ast node types the pattern language has a node
-	// for (same name), plus BlockStmt and FieldList (what its List node stands for).
-	universe := map[string]bool{"BlockStmt": true, "FieldList": true}
+	// for (same name), plus BlockStmt and FieldList (what its List node stands for) and
+	// IndexListExpr (pattern.IndexListExpr exists and Symbol.Match matches f[T1, T2], although
+	// the parser has no name for it).
+	universe := map[string]bool{"BlockStmt": true, "FieldList": true, "IndexListExpr": true}
 	for name, r := range tables {
 		if r.Known && r.IsASTNm {
 			universe[name] = true
@@ -738,7 +804,7 @@ func main() {
 	}
 	results := make([]caseOut, len(pairs))
 	var wg sync.WaitGroup
-	sem := make(chan struct{}, 16)
+	sem := make(chan struct{}, 8)
 	for k, pr := range pairs {
 		if !okPat[pr[0]] {
 			results[k] = caseOut{Kind: "skip", Pat: pr[0], Pkg: analyse[pr[1]]}
